@@ -29,9 +29,15 @@ func c04Members() []c04Member {
 			k1, k2 = "id", "order_id"
 		}
 	}
+	// the table's name as written: plain, or with a %-escaped character (stored under the
+	// decoded name) — thorough only; quick covers the escaped spelling in EncodedNames
+	tbl := "!table R"
+	if nd.Thorough() && nd.Bool("table-name-escaped") {
+		tbl = "!table R%3AX"
+	}
 	ms := []c04Member{
-		{"!table R", []string{k1 + " <: int [~pk]"}},
-		{"!table R", []string{k2 + " <: int [~pk]"}},
+		{tbl, []string{k1 + " <: int [~pk]"}},
+		{tbl, []string{k2 + " <: int [~pk]"}},
 		{"", []string{"e:", "    do something"}},
 	}
 	if nd.Thorough() {
@@ -133,7 +139,11 @@ func Harness_C04_SplitBlocks() {
 	japp, sapp := jmod.Apps["App"], smod.Apps["App"]
 	nd.Assert("split:same-type-names", len(japp.Types) == len(sapp.Types))
 	nd.Assert("split:same-endpoint-names", len(japp.Endpoints) == len(sapp.Endpoints))
-	jr, sr := japp.Types["R"].GetRelation(), sapp.Types["R"].GetRelation()
+	rname := "R"
+	if japp.Types["R"] == nil {
+		rname = "R:X"
+	}
+	jr, sr := japp.Types[rname].GetRelation(), sapp.Types[rname].GetRelation()
 	nd.Assert("split:same-fields-of-a-re-opened-table", len(jr.GetAttrDefs()) == len(sr.GetAttrDefs()))
 	jk, sk := jr.GetPrimaryKey().GetAttrName(), sr.GetPrimaryKey().GetAttrName()
 	sameKeySet := len(jk) == len(sk)
@@ -158,4 +168,42 @@ func Harness_C04_SplitBlocks() {
 		jr.PrimaryKey, sr.PrimaryKey = nil, nil
 		nd.Assert("split:same-model-apart-from-locations-and-imports", nd.ProtoEqualNoCtx(c04Strip(jmod), c04Strip(smod)))
 	}
+}
+
+
+// a type and a table whose names are written with a %-escape (stored under the decoded
+// name), re-opened in the same file or in an imported file: the blocks merge as for plain names
+func Harness_C04_EncodedNames() {
+	kind := []string{"!type", "!table"}[nd.IntRange("declared-as", 0, 1)]
+	name := []string{"Order%3AItem", "Stock%2ELevel", "Plain"}[nd.IntRange("name", 0, 2)]
+	inFile := nd.Bool("second-block-in-imported-file")
+	b1 := "App:\n    " + kind + " " + name + ":\n        a <: int\n"
+	b2 := "App:\n    " + kind + " " + name + ":\n        b <: string\n"
+	joined := "App:\n    " + kind + " " + name + ":\n        a <: int\n        b <: string\n"
+	jmod, jerr, jcrash, _ := feCompileText(joined)
+	files := map[string]string{"a.sysl": b1 + b2}
+	if inFile {
+		files = map[string]string{"a.sysl": "import b\n\n" + b1, "b.sysl": b2}
+	}
+	smod, serr, scrash, _ := feCompile(files, "a.sysl")
+	nd.Assert("encoded:both-compile", !jcrash && !scrash && jerr == nil && serr == nil && jmod != nil && smod != nil)
+	if jcrash || scrash || jerr != nil || serr != nil || jmod == nil || smod == nil {
+		return
+	}
+	jt, st := jmod.Apps["App"].Types, smod.Apps["App"].Types
+	nd.Assert("encoded:one-type-under-the-decoded-name", len(jt) == 1 && len(st) == 1)
+	for k, t := range jt {
+		fields := func(t *sysl.Type) map[string]*sysl.Type {
+			if t.GetRelation() != nil {
+				return t.GetRelation().GetAttrDefs()
+			}
+			return t.GetTuple().GetAttrDefs()
+		}
+		s2 := st[k]
+		nd.Assert("encoded:same-type-name", s2 != nil)
+		if s2 != nil {
+			nd.Assert("encoded:split-keeps-every-field", len(fields(t)) == 2 && len(fields(s2)) == 2 && fields(s2)["a"] != nil && fields(s2)["b"] != nil)
+		}
+	}
+	nd.Assert("encoded:same-model-apart-from-locations-and-imports", nd.ProtoEqualNoCtx(c04Strip(jmod), c04Strip(smod)))
 }
